@@ -66,10 +66,14 @@ func (pg *Program) ensureWorkers(n int, cfg RunConfig) error {
 		}
 		var solver *Solver
 		var err error
+		z3ms := cfg.TimeoutMs / 4
+		if z3ms < 2000 {
+			z3ms = 2000
+		}
 		if logw != nil {
-			solver, err = NewSolver("z3", cfg.TimeoutMs, logw)
+			solver, err = NewSolver("z3", z3ms, logw)
 		} else {
-			solver, err = NewSolver("z3", cfg.TimeoutMs, nil)
+			solver, err = NewSolver("z3", z3ms, nil)
 		}
 		if err != nil {
 			return err
@@ -239,7 +243,9 @@ func Load(harnessDir string, props []string) (*Program, error) {
 	for path, data := range overlay {
 		dir := filepath.Dir(path)
 		rel, _ := filepath.Rel(RepoDir, dir)
-		if rel == "zz_verifsym" || pkgSet[ModulePath+"/"+filepath.ToSlash(rel)] {
+		// shared fakes (zz_verif_fakes*.go) are always overlaid so that harnesses of
+		// other packages can use them
+		if rel == "zz_verifsym" || pkgSet[ModulePath+"/"+filepath.ToSlash(rel)] || strings.HasPrefix(filepath.Base(path), "zz_verif_fakes") {
 			ov[path] = data
 		}
 	}
@@ -310,7 +316,7 @@ func (pg *Program) RunHarness(spec *HarnessSpec, cfg RunConfig) (*HarnessResult,
 		budget = time.Duration(spec.TimeoutS) * time.Second
 	}
 	ex := &Explorer{Harness: spec.Name, Tier: cfg.Tier, MaxPaths: spec.MaxPaths, MaxDecision: 20000,
-		StepLimit: 200_000_000, Deadline: time.Now().Add(budget), Known: cfg.Known, Verbose: cfg.Verbose, res: res}
+		StepLimit: 200_000_000, Deadline: time.Now().Add(budget), Known: cfg.Known, Verbose: cfg.Verbose, res: res, FallbackMs: cfg.TimeoutMs}
 	if spec.Unwind > 0 {
 		ex.MaxDecision = spec.Unwind
 	}
@@ -336,6 +342,7 @@ func (pg *Program) RunHarness(spec *HarnessSpec, cfg RunConfig) (*HarnessResult,
 			in := w.in
 			solver := w.solver
 			q0, t0s, s0, u0, k0 := solver.Queries, solver.Time, solver.NSat, solver.NUnsat, solver.NUnk
+			f0, fu0, ft0 := solver.Fallbacks, solver.FallbackUnsat, solver.FallbackTime
 			solver.Errors = nil
 			in.trace = cfg.Trace
 			in.funcsSeen = make(map[*ssa.Function]bool)
@@ -362,6 +369,9 @@ func (pg *Program) RunHarness(spec *HarnessSpec, cfg RunConfig) (*HarnessResult,
 			res.Sat += solver.NSat - s0
 			res.Unsat += solver.NUnsat - u0
 			res.Unknown += solver.NUnk - k0
+			res.Fallbacks += solver.Fallbacks - f0
+			res.FallbackUnsat += solver.FallbackUnsat - fu0
+			res.SolverTime += solver.FallbackTime - ft0
 			for _, e := range solver.Errors {
 				res.Inconclusive["solver error: "+e]++
 			}
@@ -412,6 +422,8 @@ func (w *worker) runPath(ex *Explorer, spec *HarnessSpec, fn *ssa.Function, it *
 			in.sched.maxPreempt, _ = strconv.Atoi(k)
 		}
 	}
+	gen := w.solver.Gen
+	w.solver.BeginPath()
 	w.solver.Push()
 	var outcome string
 	var detail string
@@ -483,7 +495,9 @@ func (w *worker) runPath(ex *Explorer, spec *HarnessSpec, fn *ssa.Function, it *
 	in.sched = nil
 	in.trailOn = false
 	in.rollback()
-	w.solver.Pop()
+	if w.solver.Gen == gen {
+		w.solver.Pop()
+	}
 }
 
 // Ensure unique, stable output of map keys.
